@@ -25,7 +25,8 @@ RULE = ('random API histories (10-80 ops) over 7 association shapes extended wit
         'random letter case), S (string) and 0-3 unique identifiers over them (also over referential attributes), then '
         '0-4 unchecked connects and 0-6 attribute writes drawn from {None, 0, 1, 2, ""}; per state: unrestricted and '
         'per-association / per-class checks, is_consistent, subtype check; a loaded-from-text family run through both '
-        'main() functions with all -r/-k subsets. Non-trivial: at least one violation and at least one satisfied end; '
+        'main() functions with all -r/-k subsets; family `loaded`: the API cases with the state after the first k ops built by '
+        'xtuml.ModelLoader from SQL text (meta_common.Model.from_sql). Non-trivial: at least one violation and at least one satisfied end; '
         'distinct = distinct (shape, state recipe)')
 EXHAUSTIVE = {'quick': False, 'thorough': False}
 ASSUMPTIONS = ['identifying values are compared with == only; strings are encoded as integers towards the model']
@@ -72,7 +73,25 @@ def generate(ctx):
     n = ctx.pick(2500, 40000)
     names = sorted(mc.SHAPES)
     for i in range(n):
-        r = rng.fork(i)
+        yield _api_case(rng.fork(i), names)
+    # family `loaded` (construction route): the state after the first k ops of an API history is built by xtuml.ModelLoader
+    # from SQL text (CREATE TABLE with the type spellings of the schema, CREATE ROP, CREATE UNIQUE INDEX for the
+    # identifiers, rows with explicit ids and referential values); the rest (ops, unchecked connects, writes, checks) as before
+    for i in range(ctx.pick(400, 5000)):
+        r = rng.fork('loaded', i)
+        case = _api_case(r, names)
+        ops = case['ops']
+        k = r.randint(len(case['schema']['classes']), len(ops))
+        pre = mc.canonical_prefix(case['schema'], ops[:k])
+        case['ops'] = pre + ops[k:]
+        case['fam'], case['route'], case['prefix'] = 'loaded', 'sql', len(pre)
+        yield case
+    for _ in _rest_of_generate(ctx, rng):
+        yield _
+
+
+def _api_case(r, names):
+    if True:
         name = r.choice(names)
         schema = make_schema(r, name)
         ncls = len(schema['classes'])
@@ -133,8 +152,11 @@ def generate(ctx):
             queries.append(['uniq', k])
         if name == 'subsuper':
             queries.append(['subtype', 0, 'R4'])
-        yield {'fam': 'api', 'shape': name, 'schema': schema, 'ops': ops, 'forced': forced, 'writes': writes,
-               'queries': queries}
+        return {'fam': 'api', 'shape': name, 'schema': schema, 'ops': ops, 'forced': forced, 'writes': writes,
+                'queries': queries}
+
+
+def _rest_of_generate(ctx, rng):
     # loaded-from-text family through the main() functions
     m = ctx.pick(60, 600)
     for i in range(m):
@@ -352,10 +374,33 @@ def run_impl(case):
         case_queries = queries
     else:
         schema = case['schema']
-        model = mc.Model(schema)
-        for (k, name, attrs) in schema['idents']:
-            model.m.define_unique_identifier(schema['classes'][k]['name'], name, *attrs)
-        for op in case['ops']:
+        k0 = case['prefix'] if case.get('route') == 'sql' else 0
+        if k0:
+            model = mc.Model.from_sql(schema, case['ops'][:k0], [tuple(i) for i in schema['idents']])
+            stats['loaded_links'] = sum(1 for o in case['ops'][:k0] if o[0] == 'relate')
+            # this property's K line is the dumped state itself, so the loader-built state is compared here with the state
+            # the same prefix reaches through the API: pools, both link directions, referential reads, every attribute value
+            ref = mc.Model(schema)
+            for (k, name, attrs) in schema['idents']:
+                ref.m.define_unique_identifier(schema['classes'][k]['name'], name, *attrs)
+            for op in case['ops'][:k0]:
+                ref.apply(op)
+            for (i, key, v) in model.ref_copies():
+                fails.append({'sig': 'referential-copy-in-dict', 'what': 'loaded instance %d keeps %r = %r in its own dictionary '
+                              'although the attribute is referential' % (i, key, v)})
+            d_api = Dump(schema, ref.metaclasses, ref.assocs, ref.insts)
+            d_sql = Dump(schema, model.metaclasses, model.assocs, model.insts)
+            for what in ('kinds', 'pools', 'links', 'vals', 'classes'):
+                if getattr(d_api, what) != getattr(d_sql, what):
+                    fails.append({'sig': 'loaded-state-differs', 'what': 'the %s of the model loaded from text differ from those of the '
+                                  'model built through the API: %r vs %r; text: %s' % (what, getattr(d_sql, what), getattr(d_api, what),
+                                                                                      ' '.join(model.sql.split('\n')))})
+                    break
+        else:
+            model = mc.Model(schema)
+            for (k, name, attrs) in schema['idents']:
+                model.m.define_unique_identifier(schema['classes'][k]['name'], name, *attrs)
+        for op in case['ops'][k0:]:
             model.apply(op)
         for (ai, x, y) in case['forced']:
             a = model.assocs[ai]
@@ -386,7 +431,7 @@ def run_impl(case):
                       'classes %s values %s' % (got_uniq, want_uniq, d.classes, d.vals)})
     if cons != (want_assoc == 0 and want_uniq == 0):
         fails.append({'sig': 'consistent-iff', 'what': 'is_consistent gives %r with %d association and %d identifier violations' % (cons, want_assoc, want_uniq)})
-    if case['fam'] == 'api':
+    if case['fam'] in ('api', 'loaded'):
         for q, o in zip(case_queries, obs):
             if q[0] == 'assoc' and q[1] is not None and o != d.assoc_violations(q[1]):
                 fails.append({'sig': 'assoc-restricted', 'what': 'restricted to %s: reported %d, present %d' % (q[1], o, d.assoc_violations(q[1]))})
